@@ -87,8 +87,26 @@ pub fn replay_mapped(case: &Value, tally: &mut Tally) {
                 let _ = guarded(|| MappedSlice::<(u64, u64)>::new(&map, off).map(|m| m.len()));
                 let _ = guarded(|| MappedBytes::new(&map, off).map(|m| m.len()));
                 let _ = guarded(|| MappedStr::new(&map, off).map(|m| m.len()));
-                let _ = guarded(|| RawVectorMapper::new(&map, off).map(|m| m.len()));
-                let _ = guarded(|| IntVectorMapper::new(&map, off).map(|m| m.len()));
+                // ... and every view that IS created is used through its safe accessors at indexes inside and outside what it claims
+                // to hold (the header it read is arbitrary data, so its length and its slice need not agree): panics are fine, reads
+                // outside the slice are not (bounds hook in RawVectorMapper::word_unchecked, C08)
+                if let Ok(Ok(m)) = guarded(|| RawVectorMapper::new(&map, off)) {
+                    let n = m.len();
+                    for i in [0usize, 1, 63, 64, 65, 127, 128, n / 2, n.saturating_sub(1), n, n.saturating_add(63), usize::MAX] {
+                        let _ = guarded(|| m.bit(i));
+                        let _ = guarded(|| m.word(i / 64));
+                        if i < n { let _ = guarded(|| unsafe { m.int(i, (n - i).min(64)) }); }
+                    }
+                    let _ = guarded(|| m.count_ones());
+                    tally.evals += 37;
+                }
+                if let Ok(Ok(m)) = guarded(|| IntVectorMapper::new(&map, off)) {
+                    let n = m.len();
+                    for i in [0usize, 1, 2, 63, 64, n / 2, n.saturating_sub(1), n, usize::MAX] { let _ = guarded(|| m.get_or(i, 0)); if i < n { let _ = guarded(|| m.get(i)); } }
+                    let _ = guarded(|| m.iter().take(200).count());
+                    let _ = guarded(|| m.iter().rev().take(200).count());
+                    tally.evals += 20;
+                }
                 let _ = guarded(|| MappedOption::<MappedSlice<u64>>::new(&map, off).map(|m| m.is_some()));
                 let _ = guarded(|| MappedOption::<MappedSlice<(u64, u64)>>::new(&map, off).map(|m| m.is_some()));
                 let _ = guarded(|| MappedOption::<MappedBytes>::new(&map, off).map(|m| m.is_some()));
